@@ -108,7 +108,8 @@ def gen_opts(draw):
             "reverse_points": draw(st.booleans()), "empty_unitset": draw(st.booleans()),
             "int_values": draw(st.booleans()), "false_as_0": draw(st.booleans()),
             "type_signed": draw(st.sampled_from([None, None, "match", "true", "false", "opposite"])),
-            "container_order": draw(st.sampled_from([None, None, "reversed", "rotated"]))}
+            "container_order": draw(st.sampled_from([None, None, "reversed", "rotated"])),
+            "legacy_float_names": draw(st.booleans())}
 
 
 @st.composite
